@@ -6,6 +6,21 @@ import os
 HERE = os.path.dirname(os.path.dirname(os.path.abspath(__file__)))
 
 CHECKS = {
+    "C01": dict(
+        category="other",
+        text="W0 the decode facets (field order, names, types, widths, signedness, selectors, selector->arm maps, list sizes, "
+             "area tables, TPM_CC numbers) of all 719 types equal the pinned snapshot (exhaustive, includes the 93 types and 7 "
+             "command codes the corpus never touches); W1 the dispatcher chain is evaluated as a decision list on every type "
+             "descriptor (970 routes) and must agree with the type's kind, every TPM2B is (unsigned size, payload) and every "
+             "TPMU has _selected_by; W2-W7 walker obligations by CFG dominance and def-use on abstract traces (width/order/"
+             "signedness sources, container-first, declaration order, child paths, count/selector sources, union arm "
+             "selection); F framing by loop specialisation of the command/response walkers with L: fields decoded per (tag, "
+             "response code) variant, area tables and keys, byte-sized session area, encryption flag provenance, header-only "
+             "failed responses. Event values for concrete bytes are not decided.",
+        note="trusted: CPython ast; E1 model (guards G1-G7); semantics of int.from_bytes, dataclasses.fields order and generators.",
+        technique="pinned table snapshot + decision-list evaluation over all type descriptors + partial evaluation / def-use rules on the walkers",
+        design="4/C01",
+    ),
     "C02": dict(
         category="other",
         text="B1 reader/writer agreement: the decoder's (width, byte order, signedness) sources in the primitive walker and "
